@@ -75,6 +75,7 @@ func c13Ops() []c13Op {
 		{name: "DNSRewritesAll() on held rw.test result", deriv: "rewritesall", on: 1},
 		{name: "DNSRewrites() on held example.org result", deriv: "rewrites", on: 0},
 		{name: "DNSRewrites() on held rw2.test result", deriv: "rewrites", on: 6},
+		{name: "rules.GetDNSBasicRule(NetworkRules) of the held rw.test result", deriv: "dnsbasic", on: 1},
 		{name: "GetBasicResult()+GetCosmeticOption() on held engine result", deriv: "basic", on: 2},
 		{name: "env: pooled request poisoned", deriv: "poison", on: -1},
 		{name: "env: pool emptied (GC)", deriv: "drop", on: -1},
@@ -183,6 +184,15 @@ func (m *c13Model) step(e *scen.Engines, pool *vsyncutil.Pool[rules.Request], he
 				obs = a
 				if a != b && last {
 					m.violate("derived-evaluation-repeatable", map[string]any{"op": op.name}, "DNSRewrites() gives "+a+" then "+b, hist)
+				}
+			}
+		case op.deriv == "dnsbasic":
+			if h := held[op.on]; h != nil {
+				a := scen.RenderNet(rules.GetDNSBasicRule(h.dns.NetworkRules))
+				b := scen.RenderNet(rules.GetDNSBasicRule(h.dns.NetworkRules))
+				obs = a
+				if a != b && last {
+					m.violate("derived-evaluation-repeatable", map[string]any{"op": op.name}, "GetDNSBasicRule gives "+a+" then "+b, hist)
 				}
 			}
 		case op.deriv == "rewritesall":
